@@ -250,11 +250,36 @@ class Repo:
             self._load(fn, parsed[fn])
         for m in self.modules.values():
             self._resolve_bases(m)
+        self._register_namedtuples()
         self.normalized_helpers = []
         self.normalize_stats = {}
         if normalize and os.environ.get('VERIF_NO_NORMALIZE') != '1':
             from .normalize import normalize_repo
             self.normalize_stats = normalize_repo(self)
+
+    def _register_namedtuples(self):
+        from . import sym as _sym
+        found: Dict[str, List[str]] = {}
+        clash = set()
+        for m in self.modules.values():
+            for name, vals in m.assigns.items():
+                if len(vals) != 1:
+                    continue
+                v = vals[0]
+                if isinstance(v, ast.Call) and ast.unparse(v.func) in ('collections.namedtuple', 'namedtuple') and len(v.args) >= 2 \
+                        and isinstance(v.args[0], ast.Constant) and v.args[0].value == name:
+                    f = v.args[1]
+                    fields = None
+                    if isinstance(f, (ast.List, ast.Tuple)) and all(isinstance(x, ast.Constant) and isinstance(x.value, str) for x in f.elts):
+                        fields = [x.value for x in f.elts]
+                    elif isinstance(f, ast.Constant) and isinstance(f.value, str):
+                        fields = f.value.replace(',', ' ').split()
+                    if fields:
+                        if name in found and found[name] != fields:
+                            clash.add(name)
+                        found[name] = fields
+        _sym.NAMEDTUPLE_FIELDS.clear()
+        _sym.NAMEDTUPLE_FIELDS.update({k: v for k, v in found.items() if k not in clash})
 
     # ---------------------------------------------------------------- loading
     def _parse(self, fn: str):
